@@ -576,6 +576,12 @@ func genCase(r *rand.Rand) (Case, chooser) {
 		prof.MaxStmts = 2 + r.IntN(5)
 	}
 	g := gen.Generate(r, prof)
+	if r.IntN(15) == 0 {
+		// account and asset values no literal can spell (several of them ill-formed at once):
+		// whatever the interpreter does with them, it does the same thing every time
+		pi := gen.OddNames(r, gen.PI{Prog: g.Prog, In: g.In})
+		g.Prog, g.In = pi.Prog, pi.In
+	}
 	c := Case{Prog: g.Prog, Ledger: gen.Inputs{Balances: g.In.Balances, Meta: g.In.Meta, Vars: map[string]string{}}, PlanSeed: r.Uint64(), PermSeed: r.Uint64(), UsesOD: g.UsesOverdraftFn}
 	c.StoreMode = []string{store.ModeExact, store.ModeSuperset, store.ModeStatic, store.ModeSparse, store.ModeRandSup}[r.IntN(5)]
 	c.Shared = r.IntN(3) != 0 || c.StoreMode == store.ModeStatic
